@@ -45,7 +45,7 @@ class Shared(torch.nn.Module):
     def __init__(self, seed):
         super().__init__()
         g = torch.Generator().manual_seed(3 + seed)
-        if VARIANT in ("plain", "bn_train"):
+        if VARIANT in ("plain", "bn_train", "lazy_cache", "legacy_hook"):
             self.net = torch.nn.Sequential(
                 torch.nn.Conv1d(4, 3, 3, padding=1), torch.nn.BatchNorm1d(3), torch.nn.ReLU(), torch.nn.Dropout(0.5), torch.nn.MaxPool1d(2),
                 torch.nn.Flatten(), torch.nn.Linear(3 * (L // 2), 4), torch.nn.ReLU(), torch.nn.Linear(4, 2)).double()
@@ -75,12 +75,24 @@ class Shared(torch.nn.Module):
             bn.train()
         act = [m for m in self.net.modules() if isinstance(m, torch.nn.ReLU)][0]
         act.register_forward_hook(_user_hook)
+        self._scale = None
+        if VARIANT == "legacy_hook":
+            # an activation on which the caller once had an old-style backward hook and removed it again: torch then refuses a full backward
+            # hook on that module, so every deep_lift_shap call fails while registering - and must leave nothing behind
+            acts = [m for m in self.net.modules() if isinstance(m, torch.nn.ReLU)]
+            h = acts[-1].register_backward_hook(lambda m, gi, go: None)
+            h.remove()
 
     def forward(self, X, *args):
         self.calls += 1
         if self.fail_at is not None and self.calls == self.fail_at:
             raise RuntimeError("injected fault: forward call %d" % self.calls)
         y = self.net(X.double())
+        if VARIANT == "lazy_cache":
+            # state the model builds lazily in its first forward pass, in whatever mode that call runs (a cached positional window / mask)
+            if self._scale is None:
+                self._scale = torch.ones(1, y.shape[1], dtype=y.dtype) + 0.0 * y.detach()[:1]
+            y = y * self._scale
         for a in args:
             y = y + 0.5 * a.double().reshape(a.shape[0], -1).sum(dim=1, keepdim=True)
         return y
@@ -274,7 +286,9 @@ def bound(tier):
 def shards(tier, seed):
     return [dict(name="crash_points_and_bfs", kind="bfs", variant="plain", weight=100),
             dict(name="crash_points_and_bfs/shared_activation_object", kind="bfs", variant="shared_act", weight=100),
-            dict(name="crash_points_and_bfs/batchnorm_in_training_mode", kind="bfs", variant="bn_train", weight=100)] + \
+            dict(name="crash_points_and_bfs/batchnorm_in_training_mode", kind="bfs", variant="bn_train", weight=100),
+            dict(name="crash_points_and_bfs/lazily_built_state", kind="bfs", variant="lazy_cache", weight=100),
+            dict(name="crash_points_and_bfs/legacy_backward_hook_removed", kind="bfs", variant="legacy_hook", weight=100)] + \
            [dict(name="differential/%d" % p, kind="diff", part=p, parts=12, variant="plain", weight=300) for p in range(12)] + \
            [dict(name="differential_shared_act/%d" % p, kind="diff", part=p, parts=3, variant="shared_act", weight=300) for p in range(3)]
 
